@@ -1108,7 +1108,7 @@ def judge(chk, rows, chunks):
 
 def run(chk):
     cfg = "Config_MC_quick.cfg" if chk.quick() else "Config_MC_thorough.cfg"
-    r = chk.tlc("Config_MC", cfg, timeout=600, workers=WORKERS)
+    r = chk.tlc("Config_MC", cfg, timeout=1800, workers=WORKERS)
     for name in r.violated:
         chk.violation("C20.design." + name, "design:%s" % name, "TLC: invariant %s violated in Config_MC (%s)" % (name, cfg))
     cases = [json.loads(t[1]) for t in r.by_tag("CASE")]
